@@ -35,8 +35,7 @@ REQUIRED_PATHS = (
     "rn_sealed", "rn_sealed_adv", "rn_tail_init", "rn_tail", "rn_tail_caughtup", "rn_nowriter",
 )
 REQUIRED_PATH_PATTERNS = (
-    r"^br_s1_", r"^br_s2\+", r"^br_s\d\+?p", r"^br_.*_t_", r"^br_.*_short$", r"^br_.*_cut$", r"^br_.*_dead$",
-    r"^br_.*deadskip", r"^rn_.*deadskip",
+    r"^br_s1_", r"^br_s2\+", r"^br_s\d\+?p", r"^br_.*_t_", r"^br_.*_short$", r"^br_.*_cut$",
 )
 
 TIERS = {
@@ -46,7 +45,7 @@ TIERS = {
         "gen": "MC_WalrusBlocks_quick.cfg",
         "defects": ["MC_WalrusBlocks_defect_parser.cfg", "MC_WalrusBlocks_defect_budget0.cfg",
                     "MC_WalrusBlocks_defect_tailinit.cfg"],
-        "known": ["MC_WalrusBlocks_known_iddrift.cfg", "MC_WalrusBlocks_known_deadblock.cfg"],
+        "known": ["MC_WalrusBlocks_known_iddrift.cfg"],
         "max_behaviours": 1500, "simulate": None, "timeout": 600,
     },
     "thorough": {
@@ -55,7 +54,7 @@ TIERS = {
         "gen_extra": ["MC_WalrusBlocks_two.cfg"],
         "defects": ["MC_WalrusBlocks_defect_parser.cfg", "MC_WalrusBlocks_defect_budget0.cfg",
                     "MC_WalrusBlocks_defect_tailinit.cfg"],
-        "known": ["MC_WalrusBlocks_known_iddrift.cfg", "MC_WalrusBlocks_known_deadblock.cfg"],
+        "known": ["MC_WalrusBlocks_known_iddrift.cfg"],
         "max_behaviours": 12000, "simulate": ("MC_WalrusBlocks_sim.cfg", "num=600", "18"), "timeout": 3000,
     },
 }
